@@ -85,6 +85,14 @@ def check_text(text, depth, case, real=None):
         except Exception as e:  # noqa
             v("object-from-file", "SequenceParameters(sequenceFile) raised %r for file %r" % (e, text))
             return out, verdict, calls
+        try:
+            from localcider.sequencePermutants import SequencePermutants
+            sp = SequencePermutants(sequenceFile=name)
+            calls += 1
+            if sp.SeqObj.seq != exp:
+                v("object-from-file", "SequencePermutants(sequenceFile).SeqObj.seq=%r for file %r, expected %r" % (sp.SeqObj.seq, text, exp))
+        except Exception as e:  # noqa
+            v("object-from-file", "SequencePermutants(sequenceFile) raised %r for file %r" % (e, text))
         if s != exp or len(o) != len(exp):
             v("object-from-file", "SequenceParameters(sequenceFile).get_sequence()=%r for file %r, expected %r" % (s, text, exp))
         elif depth >= 2:
